@@ -231,18 +231,7 @@ Proof.
     + eapply Forall2_perm_trans; [exact T1|now apply Forall2_perm_sym].
 Qed.
 
-Theorem perm_invariant_noclash : forall P pi1 pi2 sigma1 sigma2,
-  no_clashb P = true ->
-  is_perm pi1 (length (p_files P)) -> is_perm pi2 (length (p_files P)) ->
-  perms_ok (p_sets P) sigma1 -> perms_ok (p_sets P) sigma2 ->
-  idents P pi1 sigma1 = idents P pi2 sigma2.
-Proof.
-  intros P pi1 pi2 s1 s2 HN H1 H2 S1 S2. unfold idents, idents_enum. apply map_ext. intros id. f_equal.
-  unfold final_state, registration.
-  apply (idents_enum_invariant_of pipeline P); auto using enumerate_perm, enum_sets_perm.
-Qed.
-
-(* ================================================================== the repair candidate *)
+(* ------------------------------------------------------------------ sorted enumeration *)
 
 Lemma file_leb_total : total file_leb.
 Proof. intros a b. apply path_leb_total. Qed.
@@ -270,12 +259,20 @@ Proof.
     apply (NoDup_map_inj_in f_path files); auto. now apply path_leb_antisym.
 Qed.
 
-Theorem sorted_is_canonical : forall P pi1 pi2 sigma,
+Lemma sorted_enum_perm files pi :
+  is_perm pi (length files) -> Permutation (isort file_leb (enumerate files pi)) files.
+Proof.
+  intros H. eapply perm_trans; [apply Permutation_sym, isort_perm|now apply enumerate_perm].
+Qed.
+
+(* MAIN THEOREM for the by-file phases (since 80d6c91): the order in which the set of source files
+   is iterated does not matter, whether names compete or not *)
+Theorem file_order_irrelevant : forall P pi1 pi2 sigma,
   NoDup (map f_path (p_files P)) ->
   is_perm pi1 (length (p_files P)) -> is_perm pi2 (length (p_files P)) ->
-  idents_sorted P pi1 sigma = idents_sorted P pi2 sigma.
+  idents P pi1 sigma = idents P pi2 sigma.
 Proof.
-  intros P pi1 pi2 sigma ND H1 H2. unfold idents_sorted.
+  intros P pi1 pi2 sigma ND H1 H2. unfold idents.
   now rewrite (sorted_enumeration_canonical (p_files P) pi1 pi2).
 Qed.
 
@@ -292,6 +289,304 @@ Proof.
   - intros a b Ha Hb.
     apply AS; [exact (Permutation_in _ (enumerate_perm (p_files P) pi1 H1) Ha)
               |exact (Permutation_in _ (enumerate_perm (p_files P) pi1 H1) Hb)].
+Qed.
+
+(* clash-free projects: nothing matters (any pipeline, sorted or not) *)
+Theorem perm_invariant_noclash : forall P pi1 pi2 sigma1 sigma2,
+  no_clashb P = true ->
+  is_perm pi1 (length (p_files P)) -> is_perm pi2 (length (p_files P)) ->
+  perms_ok (p_sets P) sigma1 -> perms_ok (p_sets P) sigma2 ->
+  idents P pi1 sigma1 = idents P pi2 sigma2.
+Proof.
+  intros P pi1 pi2 s1 s2 HN H1 H2 S1 S2. unfold idents, idents_enum. apply map_ext. intros id. f_equal.
+  unfold final_state, registration.
+  apply (idents_enum_invariant_of pipeline P); auto using sorted_enum_perm, enum_sets_perm.
+Qed.
+
+(* ------------------------------------------------------------------ the project's location *)
+
+Lemma lex_leb_prefix {A} (lt : A -> A -> bool) (irr : forall a, lt a a = false) p a b :
+  lex_leb lt (p ++ a) (p ++ b) = lex_leb lt a b.
+Proof. induction p as [|x p IH]; simpl; [reflexivity|]. now rewrite irr. Qed.
+
+Lemma file_leb_relocate root a b :
+  file_leb (relocate_file root a) (relocate_file root b) = file_leb a b.
+Proof.
+  unfold file_leb, relocate_file, path_leb. simpl.
+  apply lex_leb_prefix. exact (st_irrefl _ str_ltb_strict).
+Qed.
+
+Lemma insert_map {A B} (f : A -> B) (leb : A -> A -> bool) (leb' : B -> B -> bool) :
+  (forall a b, leb' (f a) (f b) = leb a b) ->
+  forall x l, insert leb' (f x) (map f l) = map f (insert leb x l).
+Proof.
+  intros H x l. induction l as [|y l IH]; simpl; [reflexivity|].
+  rewrite H. destruct (leb x y); simpl; [reflexivity|]. now rewrite IH.
+Qed.
+
+Lemma isort_map {A B} (f : A -> B) (leb : A -> A -> bool) (leb' : B -> B -> bool) :
+  (forall a b, leb' (f a) (f b) = leb a b) ->
+  forall l, isort leb' (map f l) = map f (isort leb l).
+Proof.
+  intros H l. induction l as [|x l IH]; simpl; [reflexivity|].
+  rewrite IH. now apply insert_map.
+Qed.
+
+Lemma enumerate_map {A B} (f : A -> B) (l : list A) pi : enumerate (map f l) pi = map f (enumerate l pi).
+Proof.
+  unfold enumerate. induction pi as [|i pi IH]; simpl; [reflexivity|].
+  rewrite map_app, IH. f_equal. rewrite nth_error_map. now destruct (nth_error l i).
+Qed.
+
+Lemma flat_map_map {A B C} (f : A -> B) (g : B -> list C) l : flat_map g (map f l) = flat_map (fun x => g (f x)) l.
+Proof. induction l as [|x l IH]; simpl; [reflexivity|]. now rewrite IH. Qed.
+
+Lemma registration_relocate pl root enum sets :
+  registration_of pl (map (relocate_file root) enum) sets = registration_of pl enum sets.
+Proof.
+  unfold registration_of. apply flat_map_ext. intros [k|k]; simpl; [|reflexivity].
+  rewrite flat_map_map. reflexivity.
+Qed.
+
+Lemma all_reqs_relocate root P : all_reqs (relocate root P) = all_reqs P.
+Proof. unfold all_reqs, relocate. simpl. now rewrite flat_map_map. Qed.
+
+(* moving the whole project (all source files below one root) changes nothing *)
+Theorem location_irrelevant : forall root P pi sigma,
+  idents (relocate root P) pi sigma = idents P pi sigma.
+Proof.
+  intros root P pi sigma. unfold idents.
+  assert (E : isort file_leb (enumerate (p_files (relocate root P)) pi)
+              = map (relocate_file root) (isort file_leb (enumerate (p_files P) pi))).
+  { unfold relocate. simpl p_files. rewrite enumerate_map.
+    apply isort_map. apply file_leb_relocate. }
+  rewrite E. unfold idents_enum, ent_ids. rewrite all_reqs_relocate.
+  apply map_ext. intros id. f_equal. unfold final_state, registration.
+  rewrite registration_relocate. reflexivity.
+Qed.
+
+(* ================================================================== the NameSelector, one key at a time *)
+
+Definition has_key (K : str * str) (r : req) : bool := key_eqb (name_key r) K.
+Definition item_key (it : item) : str * str := (i_dir it, i_base it).
+Definition item_has (K : str * str) (it : item) : bool := key_eqb (item_key it) K.
+
+Definition consistentP (rs : list req) : Prop :=
+  forall a b, In a rs -> In b rs -> r_id a = r_id b -> a = b.
+
+Lemma key_eqb_refl K : key_eqb K K = true.
+Proof. now apply key_eqb_eq. Qed.
+
+Lemma from_req_key r it : from_req r it -> item_key it = name_key r.
+Proof. intros (_ & Hd & Hb). unfold item_key, name_key. now rewrite Hd, Hb. Qed.
+
+Lemma find_item_filter K id l :
+  (forall it, In it l -> i_id it = id -> item_has K it = true) ->
+  find_item id l = find_item id (filter (item_has K) l).
+Proof.
+  induction l as [|x l IH]; intros H; simpl; [reflexivity|].
+  destruct (Nat.eqb id (i_id x)) eqn:E.
+  - apply Nat.eqb_eq in E. rewrite (H x (or_introl eq_refl) (eq_sym E)). simpl.
+    apply Nat.eqb_eq in E. now rewrite E.
+  - destruct (item_has K x); simpl; [rewrite E|]; apply IH; intros it Hit; apply H; now right.
+Qed.
+
+Record FK (rs0 : list req) (K : str * str) (st sk : nstate) : Prop := {
+  fk_items : filter (item_has K) (items st) = items sk;
+  fk_count : count_get K (counts st) = count_get K (counts sk);
+  fk_prov : forall it, In it (items st) -> exists r, In r rs0 /\ from_req r it }.
+
+Lemma fk_same_id rs0 K st sk r :
+  consistentP rs0 -> In r rs0 -> FK rs0 K st sk ->
+  forall it, In it (items st) -> i_id it = r_id r -> item_key it = name_key r.
+Proof.
+  intros HC Hr F it Hit Hid. destruct (fk_prov _ _ _ _ F it Hit) as (r' & Hr' & Hf).
+  assert (r' = r) by (apply HC; auto; destruct Hf as (Hi & _); congruence).
+  subst. now apply from_req_key.
+Qed.
+
+Lemma get_name_fk_in rs0 K st sk r :
+  consistentP rs0 -> In r rs0 -> has_key K r = true -> FK rs0 K st sk ->
+  FK rs0 K (fst (get_name st r)) (fst (get_name sk r)).
+Proof.
+  intros HC Hr HK F. pose proof HK as HK'. apply key_eqb_eq in HK'.
+  assert (Efind : find_item (r_id r) (items st) = find_item (r_id r) (items sk)).
+  { rewrite <- (fk_items _ _ _ _ F). apply find_item_filter. intros it Hit Hid.
+    unfold item_has. rewrite (fk_same_id rs0 K st sk r HC Hr F it Hit Hid). exact HK. }
+  unfold get_name. rewrite <- Efind.
+  destruct (find_item (r_id r) (items st)) eqn:E; simpl; [exact F|].
+  unfold name_key in HK'. rewrite HK'. rewrite (fk_count _ _ _ _ F).
+  split; simpl.
+  - unfold item_has at 1, item_key. simpl. rewrite HK', key_eqb_refl. f_equal. exact (fk_items _ _ _ _ F).
+  - now rewrite !count_get_set_same.
+  - intros it [<-|Hit]; [|exact (fk_prov _ _ _ _ F it Hit)].
+    exists r. split; [assumption|]. repeat split; simpl; auto.
+Qed.
+
+Lemma get_name_fk_out rs0 K st sk r :
+  In r rs0 -> has_key K r = false -> FK rs0 K st sk -> FK rs0 K (fst (get_name st r)) sk.
+Proof.
+  intros Hr HK F. unfold get_name.
+  destruct (find_item (r_id r) (items st)) eqn:E; simpl; [exact F|].
+  assert (N : (r_dir r, final_name (r_name r)) <> K).
+  { intros X. unfold has_key, name_key in HK. rewrite X, key_eqb_refl in HK. discriminate. }
+  split; simpl.
+  - unfold item_has at 1, item_key. simpl.
+    destruct (key_eqb (r_dir r, final_name (r_name r)) K) eqn:E2;
+      [apply key_eqb_eq in E2; contradiction|]. exact (fk_items _ _ _ _ F).
+  - rewrite count_get_set_other by exact N. exact (fk_count _ _ _ _ F).
+  - intros it [<-|Hit]; [|exact (fk_prov _ _ _ _ F it Hit)].
+    exists r. split; [assumption|]. repeat split; reflexivity.
+Qed.
+
+Lemma run_fk rs0 K : consistentP rs0 -> forall rs st sk, incl rs rs0 -> FK rs0 K st sk ->
+  FK rs0 K (fst (run st rs)) (fst (run sk (filter (has_key K) rs))).
+Proof.
+  intros HC. induction rs as [|r rs IH]; intros st sk Hin F; simpl; [exact F|].
+  assert (Hr : In r rs0) by (apply Hin; now left).
+  assert (Hin' : incl rs rs0) by (intros x Hx; apply Hin; now right).
+  destruct (get_name st r) as [st1 n] eqn:G. destruct (run st1 rs) as [st2 ns] eqn:R. simpl.
+  destruct (has_key K r) eqn:HK; simpl.
+  - destruct (get_name sk r) as [sk1 n'] eqn:G'.
+    destruct (run sk1 (filter (has_key K) rs)) as [sk2 ns'] eqn:R'. simpl.
+    pose proof (get_name_fk_in rs0 K st sk r HC Hr HK F) as F1. rewrite G, G' in F1. simpl in F1.
+    specialize (IH st1 sk1 Hin' F1). now rewrite R, R' in IH.
+  - pose proof (get_name_fk_out rs0 K st sk r Hr HK F) as F1. rewrite G in F1. simpl in F1.
+    specialize (IH st1 sk Hin' F1). now rewrite R in IH.
+Qed.
+
+Lemma fk_init rs0 K : FK rs0 K init init.
+Proof. split; simpl; [reflexivity|reflexivity|intros it []]. Qed.
+
+(* the identifier of an entity is decided by the requests for its own (directory, name) alone *)
+Lemma ident_by_key rs r : consistentP rs -> In r rs ->
+  ident_in (fst (run init rs)) (r_id r)
+  = ident_in (fst (run init (filter (has_key (name_key r)) rs))) (r_id r).
+Proof.
+  intros HC Hr. set (K := name_key r).
+  pose proof (run_fk rs K HC rs init init (incl_refl _) (fk_init rs K)) as F.
+  unfold ident_in. f_equal. rewrite <- (fk_items _ _ _ _ F). apply find_item_filter.
+  intros it Hit Hid. unfold item_has. rewrite (fk_same_id rs K _ _ r HC Hr F it Hit Hid).
+  apply key_eqb_refl.
+Qed.
+
+Lemma absent_none rs id : ~ In id (map r_id rs) -> ident_in (fst (run init rs)) id = None.
+Proof.
+  intros Hid. destruct (run_spec rs init [] inv_init) as (_ & P & _); [intros it []|].
+  simpl in P. unfold ident_in.
+  destruct (find_item id (items (fst (run init rs)))) as [it|] eqn:F; [exfalso|reflexivity].
+  apply find_item_some in F as [F1 F2]. destruct (P it F1) as (r' & Hr' & (Fi & _)).
+  apply Hid. rewrite <- F2, Fi. now apply in_map.
+Qed.
+
+Lemma filter_flat_map {A B} (p : B -> bool) (f : A -> list B) l :
+  filter p (flat_map f l) = flat_map (fun x => filter p (f x)) l.
+Proof. induction l as [|x l IH]; simpl; [reflexivity|]. now rewrite filter_app, IH. Qed.
+
+Lemma filter_nil_iff {A} (p : A -> bool) l : (forall x, In x l -> p x = false) -> filter p l = [].
+Proof.
+  induction l as [|x l IH]; simpl; intros H; [reflexivity|].
+  rewrite (H x (or_introl eq_refl)). apply IH. auto.
+Qed.
+
+(* soundness of the boolean hypotheses *)
+Lemma consistentb_sound P : consistentb P = true -> consistentP (all_reqs P).
+Proof.
+  unfold consistentb. rewrite forallb_forall. intros H a b Ha Hb E.
+  specialize (H a Ha). rewrite forallb_forall in H. specialize (H b Hb).
+  apply Nat.eqb_eq in E. rewrite E in H. now apply req_eqb_eq.
+Qed.
+
+Definition isolatedP (P : project) : Prop :=
+  forall sr r, In sr (concat (p_sets P)) -> In r (all_reqs P) ->
+    name_key r = name_key sr -> r_id r = r_id sr.
+
+Lemma sets_isolatedb_sound P : sets_isolatedb P = true -> isolatedP P.
+Proof.
+  unfold sets_isolatedb. rewrite forallb_forall. intros H sr r Hs Hr E.
+  specialize (H sr Hs). rewrite forallb_forall in H. specialize (H r Hr).
+  rewrite E, key_eqb_refl in H. now apply Nat.eqb_eq.
+Qed.
+
+Lemma consistentP_incl rs rs' : consistentP rs -> incl rs' rs -> consistentP rs'.
+Proof. intros H I a b Ha Hb. apply H; now apply I. Qed.
+
+(* MAIN THEOREM for the set-ordered phases: their order does not matter as long as no entity that
+   is requested there competes with another one — for any sequence of phases *)
+Lemma set_order_irrelevant_of pl P enum t1 t2 :
+  consistentb P = true -> sets_isolatedb P = true ->
+  Permutation enum (p_files P) ->
+  Forall2 (@Permutation req) t1 (p_sets P) -> Forall2 (@Permutation req) t2 (p_sets P) ->
+  forall id, ident_in (fst (run init (registration_of pl enum t1))) id
+           = ident_in (fst (run init (registration_of pl enum t2))) id.
+Proof.
+  intros HCb HIb HE T1 T2 id.
+  pose proof (consistentb_sound P HCb) as HC. pose proof (sets_isolatedb_sound P HIb) as HI.
+  set (A := registration_of pl enum t1). set (B := registration_of pl enum t2).
+  assert (InA : forall r, In r A -> In r (all_reqs P)).
+  { intros r Hr. apply (registration_in_all P pl).
+    now apply (registration_members pl enum (p_files P) t1 (p_sets P)). }
+  assert (InB : forall r, In r B -> In r (all_reqs P)).
+  { intros r Hr. apply (registration_in_all P pl).
+    now apply (registration_members pl enum (p_files P) t2 (p_sets P)). }
+  assert (AB : forall r, In r A <-> In r B).
+  { intros r. apply registration_members; [apply Permutation_refl|].
+    eapply Forall2_perm_trans; [exact T1|now apply Forall2_perm_sym]. }
+  assert (CA : consistentP A) by (apply (consistentP_incl (all_reqs P)); auto).
+  assert (CB : consistentP B) by (apply (consistentP_incl (all_reqs P)); auto).
+  destruct (in_dec Nat.eq_dec id (map r_id A)) as [Hin|Hout].
+  2:{ rewrite (absent_none A id Hout). symmetry. apply absent_none. intros Hin. apply Hout.
+      apply in_map_iff in Hin as (r & <- & Hr). apply in_map. now apply AB. }
+  apply in_map_iff in Hin as (r & <- & HrA). assert (HrB : In r B) by now apply AB.
+  rewrite (ident_by_key A r CA HrA), (ident_by_key B r CB HrB).
+  set (K := name_key r).
+  destruct (existsb (has_key K) (concat (p_sets P))) eqn:EX.
+  - (* the entity is requested in a set phase: it is alone with its name *)
+    apply existsb_exists in EX as (sr & Hsr & Hk). apply key_eqb_eq in Hk.
+    assert (NC : forall L, (forall x, In x L -> In x (all_reqs P)) -> noclashP (filter (has_key K) L)).
+    { intros L HL a b Ha Hb. apply filter_In in Ha as [Ha Ka]. apply filter_In in Hb as [Hb Kb].
+      apply key_eqb_eq in Ka, Kb. split.
+      - intros E. apply HC; auto.
+      - intros N. exfalso. apply N.
+        rewrite (HI sr a Hsr (HL a Ha)), (HI sr b Hsr (HL b Hb)); congruence. }
+    assert (RA : In r (filter (has_key K) A)) by (apply filter_In; split; [assumption|apply key_eqb_refl]).
+    assert (RB : In r (filter (has_key K) B)) by (apply filter_In; split; [assumption|apply key_eqb_refl]).
+    rewrite (noclash_ident _ (NC A InA) r RA), (noclash_ident _ (NC B InB) r RB). reflexivity.
+  - (* no set phase asks for this name: the requests for it are the same list in both runs *)
+    assert (NoK : forall t, Forall2 (@Permutation req) t (p_sets P) ->
+                   forall k, filter (has_key K) (nth k t []) = []).
+    { intros t Ht k. apply filter_nil_iff. intros x Hx.
+      apply (Permutation_in _ (nth_perm t (p_sets P) Ht k)) in Hx. apply nth_in_concat in Hx.
+      destruct (has_key K x) eqn:E; [|reflexivity].
+      assert (X : existsb (has_key K) (concat (p_sets P)) = true) by (apply existsb_exists; eauto).
+      congruence. }
+    assert (EQ : filter (has_key K) A = filter (has_key K) B).
+    { unfold A, B, registration_of. rewrite !filter_flat_map. apply flat_map_ext.
+      intros [k|k]; simpl; [reflexivity|]. now rewrite (NoK t1 T1 k), (NoK t2 T2 k). }
+    now rewrite EQ.
+Qed.
+
+Theorem set_order_irrelevant : forall P pi sigma1 sigma2,
+  consistentb P = true -> sets_isolatedb P = true ->
+  is_perm pi (length (p_files P)) ->
+  perms_ok (p_sets P) sigma1 -> perms_ok (p_sets P) sigma2 ->
+  idents P pi sigma1 = idents P pi sigma2.
+Proof.
+  intros P pi s1 s2 HC HI Hp S1 S2. unfold idents, idents_enum. apply map_ext. intros id. f_equal.
+  unfold final_state, registration.
+  apply (set_order_irrelevant_of pipeline P); auto using sorted_enum_perm, enum_sets_perm.
+Qed.
+
+(* PARTIAL THEOREM: every order at once *)
+Theorem deterministic_partial : forall P pi1 pi2 sigma1 sigma2,
+  consistentb P = true -> sets_isolatedb P = true -> NoDup (map f_path (p_files P)) ->
+  is_perm pi1 (length (p_files P)) -> is_perm pi2 (length (p_files P)) ->
+  perms_ok (p_sets P) sigma1 -> perms_ok (p_sets P) sigma2 ->
+  idents P pi1 sigma1 = idents P pi2 sigma2.
+Proof.
+  intros P pi1 pi2 s1 s2 HC HI ND H1 H2 S1 S2.
+  rewrite (file_order_irrelevant P pi1 pi2 s1 ND H1 H2).
+  now apply set_order_irrelevant.
 Qed.
 
 (* ================================================================== witnesses *)
@@ -311,31 +606,64 @@ Definition clash_project : project :=
                                  mkr 6 (s "None") (s "x")] |} ];
      p_sets := [] |}.
 
-Lemma clash_project_idents :
-  idents clash_project [0; 1] [] =
+(* before 80d6c91 the two variables swapped "x" and "x~2" with the iteration order of the set ... *)
+Lemma clash_project_unsorted :
+  idents_unsorted clash_project [0; 1] [] =
     [(1, Some (s "a.f90")); (2, Some (s "ma")); (3, Some (s "x"));
      (4, Some (s "b.f90")); (5, Some (s "mb")); (6, Some (s "x~2"))] /\
-  idents clash_project [1; 0] [] =
+  idents_unsorted clash_project [1; 0] [] =
     [(1, Some (s "a.f90")); (2, Some (s "ma")); (3, Some (s "x~2"));
      (4, Some (s "b.f90")); (5, Some (s "mb")); (6, Some (s "x"))].
 Proof. split; vm_compute; reflexivity. Qed.
 
-Lemma clash_project_perms :
-  is_perm [0; 1] (length (p_files clash_project)) /\ is_perm [1; 0] (length (p_files clash_project)) /\
-  perms_ok (p_sets clash_project) [] /\ no_clashb clash_project = false.
-Proof.
-  split; [apply Permutation_refl|]. split; [apply perm_swap|]. split; [constructor|reflexivity].
-Qed.
-
-(* the anchors of the two variables swap: "variable-x" <-> "variable-x~2" *)
-Lemma clash_project_anchors :
-  let a (i : item) := anchor (s "variable") i in
-  let it k := {| i_id := 3; i_dir := s "None"; i_base := s "x"; i_k := k |} in
-  a (it 1) = s "variable-x" /\ a (it 2) = s "variable-x~2".
+(* ... now a.f90 always comes first *)
+Lemma clash_project_sorted :
+  idents clash_project [0; 1] [] = idents clash_project [1; 0] [] /\
+  idents clash_project [1; 0] [] =
+    [(1, Some (s "a.f90")); (2, Some (s "ma")); (3, Some (s "x"));
+     (4, Some (s "b.f90")); (5, Some (s "mb")); (6, Some (s "x~2"))].
 Proof. split; vm_compute; reflexivity. Qed.
 
-(* the same project with the variables renamed apart: the hypothesis of the partial theorem is
-   satisfiable by a non-trivial project *)
+Lemma clash_project_perms :
+  is_perm [0; 1] (length (p_files clash_project)) /\ is_perm [1; 0] (length (p_files clash_project)) /\
+  perms_ok (p_sets clash_project) [] /\ no_clashb clash_project = false /\
+  consistentb clash_project = true /\ sets_isolatedb clash_project = true /\
+  NoDup (map f_path (p_files clash_project)).
+Proof.
+  split; [apply Permutation_refl|]. split; [apply perm_swap|]. split; [constructor|].
+  split; [reflexivity|]. split; [reflexivity|]. split; [reflexivity|].
+  simpl. repeat constructor; simpl; intuition discriminate.
+Qed.
+
+(* a project with competing names in the by-file phases AND a non-trivial toposort set: every
+   hypothesis of the partial theorem holds although no_clashb fails *)
+Definition partial_project : project :=
+  {| p_files :=
+       [ {| f_path := [s "src"; s "a.f90"];
+            f_segs := segs_at 7 [mkr 1 (s "sourcefile") (s "a.f90"); mkr 2 (s "module") (s "ma");
+                                 mkr 3 (s "None") (s "x")] |};
+         {| f_path := [s "src"; s "b.f90"];
+            f_segs := segs_at 7 [mkr 4 (s "sourcefile") (s "b.f90"); mkr 5 (s "module") (s "mb");
+                                 mkr 6 (s "None") (s "x"); mkr 3 (s "None") (s "x")] |} ];
+     p_sets := [[mkr 2 (s "module") (s "ma"); mkr 5 (s "module") (s "mb")]] |}.
+
+Example partial_project_ok :
+  no_clashb partial_project = false /\
+  consistentb partial_project = true /\ sets_isolatedb partial_project = true /\
+  is_perm [1; 0] (length (p_files partial_project)) /\
+  perms_ok (p_sets partial_project) [[1; 0]] /\
+  NoDup (map f_path (p_files partial_project)) /\
+  idents partial_project [1; 0] [[1; 0]] =
+    [(1, Some (s "a.f90")); (4, Some (s "b.f90")); (6, Some (s "x~2")); (3, Some (s "x"));
+     (2, Some (s "ma")); (5, Some (s "mb"))].
+Proof.
+  split; [reflexivity|]. split; [reflexivity|]. split; [reflexivity|]. split; [apply perm_swap|].
+  split; [repeat constructor; apply perm_swap|].
+  split; [|vm_compute; reflexivity].
+  simpl. repeat constructor; simpl; intuition discriminate.
+Qed.
+
+(* the same project with the variables renamed apart *)
 Definition noclash_project : project :=
   {| p_files :=
        [ {| f_path := [s "src"; s "a.f90"];
@@ -350,31 +678,32 @@ Example noclash_project_ok :
   no_clashb noclash_project = true /\
   is_perm [1; 0] (length (p_files noclash_project)) /\
   perms_ok (p_sets noclash_project) [[1; 0]] /\
-  NoDup (map f_path (p_files noclash_project)) /\
   idents noclash_project [1; 0] [[1; 0]] =
     [(1, Some (s "a.f90")); (4, Some (s "b.f90")); (6, Some (s "y")); (3, Some (s "x"));
      (2, Some (s "ma")); (5, Some (s "mb"))].
 Proof.
   split; [reflexivity|]. split; [apply perm_swap|]. split; [repeat constructor; apply perm_swap|].
-  split; [|vm_compute; reflexivity].
-  simpl. repeat constructor; simpl; intuition discriminate.
+  vm_compute; reflexivity.
 Qed.
 
-(* sorting the files is not the whole repair: two equally named modules that sit in one level
-   of the toposort are numbered in the iteration order of a set of objects hashed by id *)
+(* THE refutation of the full statement: two equally named modules that sit in one level of the
+   toposort are numbered in the iteration order of a set of objects hashed by id *)
 Definition modclash_project : project :=
   {| p_files :=
        [ {| f_path := [s "src"; s "a.f90"]; f_segs := segs_at 7 [mkr 1 (s "module") (s "m")] |};
          {| f_path := [s "src"; s "b.f90"]; f_segs := segs_at 7 [mkr 2 (s "module") (s "m")] |} ];
      p_sets := [[mkr 1 (s "module") (s "m"); mkr 2 (s "module") (s "m")]] |}.
 
-Lemma modclash_sorted_differs :
+Lemma modclash_differs :
+  is_perm [0; 1] (length (p_files modclash_project)) /\
   perms_ok (p_sets modclash_project) [[0; 1]] /\ perms_ok (p_sets modclash_project) [[1; 0]] /\
-  idents_sorted modclash_project [0; 1] [[0; 1]] = [(1, Some (s "m")); (2, Some (s "m~2"))] /\
-  idents_sorted modclash_project [0; 1] [[1; 0]] = [(1, Some (s "m~2")); (2, Some (s "m"))].
+  sets_isolatedb modclash_project = false /\ consistentb modclash_project = true /\
+  idents modclash_project [0; 1] [[0; 1]] = [(1, Some (s "m")); (2, Some (s "m~2"))] /\
+  idents modclash_project [0; 1] [[1; 0]] = [(1, Some (s "m~2")); (2, Some (s "m"))].
 Proof.
+  split; [apply Permutation_refl|].
   split; [repeat constructor; apply Permutation_refl|]. split; [repeat constructor; apply perm_swap|].
-  split; vm_compute; reflexivity.
+  split; [reflexivity|]. split; [reflexivity|]. split; vm_compute; reflexivity.
 Qed.
 
 (* ================================================================== other sets *)
@@ -410,10 +739,24 @@ Proof.
   - intros a b _ _. apply str_leb_antisym.
 Qed.
 
-Lemma child_edges_refuted_witness :
+(* since c3c7c8e the child -> parent edges of InheritedByGraph are emitted in sorted order too *)
+Theorem child_edges_sorted : forall parent children pi1 pi2,
+  is_perm pi1 (length children) -> is_perm pi2 (length children) ->
+  emit_child_edges parent children pi1 = emit_child_edges parent children pi2.
+Proof.
+  intros parent children pi1 pi2 H1 H2. unfold emit_child_edges. f_equal.
+  exact (graph_emission_sorted children pi1 pi2 H1 H2).
+Qed.
+
+(* what the fix repaired: in set order the edges depend on the permutation *)
+Lemma child_edges_unsorted_witness :
   is_perm [0; 1] 2 /\ is_perm [1; 0] 2 /\
-  emit_child_edges (s "base") [s "c1"; s "c2"] [0; 1] <> emit_child_edges (s "base") [s "c1"; s "c2"] [1; 0].
-Proof. split; [apply Permutation_refl|]. split; [apply perm_swap|]. vm_compute. discriminate. Qed.
+  emit_child_edges_unsorted (s "base") [s "c1"; s "c2"] [0; 1]
+    <> emit_child_edges_unsorted (s "base") [s "c1"; s "c2"] [1; 0] /\
+  emit_child_edges (s "base") [s "c1"; s "c2"] [0; 1] = emit_child_edges (s "base") [s "c1"; s "c2"] [1; 0].
+Proof.
+  split; [apply Permutation_refl|]. split; [apply perm_swap|]. split; [vm_compute; discriminate|reflexivity].
+Qed.
 
 Example graph_emission_example :
   emit_nodes [s "mb"; s "ma~2"; s "ma"; s "Mc"] [2; 0; 3; 1] = [s "Mc"; s "ma"; s "ma~2"; s "mb"]
@@ -496,9 +839,20 @@ Lemma statement_refuted :
        perms_ok (p_sets P) sigma1 -> perms_ok (p_sets P) sigma2 ->
        idents P pi1 sigma1 = idents P pi2 sigma2).
 Proof.
-  intros H. destruct clash_project_perms as (P1 & P2 & S & _).
-  specialize (H clash_project [0; 1] [1; 0] [] [] P1 P2 S S).
-  destruct clash_project_idents as [E1 E2]. rewrite E1, E2 in H. discriminate.
+  intros H. destruct modclash_differs as (P1 & S1 & S2 & _ & _ & E1 & E2).
+  specialize (H modclash_project [0; 1] [0; 1] [[0; 1]] [[1; 0]] P1 P1 S1 S2).
+  rewrite E1, E2 in H. discriminate.
+Qed.
+
+(* what 80d6c91 repaired: without the sort the file order alone refutes the statement *)
+Lemma unsorted_statement_refuted :
+  ~ (forall P pi1 pi2 sigma,
+       is_perm pi1 (length (p_files P)) -> is_perm pi2 (length (p_files P)) ->
+       idents_unsorted P pi1 sigma = idents_unsorted P pi2 sigma).
+Proof.
+  intros H. destruct clash_project_perms as (P1 & P2 & _).
+  specialize (H clash_project [0; 1] [1; 0] [] P1 P2).
+  destruct clash_project_unsorted as [E1 E2]. rewrite E1, E2 in H. discriminate.
 Qed.
 
 Lemma uses_statement_refuted :
@@ -509,11 +863,11 @@ Proof.
   exact (N (H [s "ma"; s "mb"] [0; 1] [1; 0] P1 P2)).
 Qed.
 
-Lemma child_edges_statement_refuted :
+Lemma child_edges_unsorted_refuted :
   ~ (forall parent children pi1 pi2, is_perm pi1 (length children) -> is_perm pi2 (length children) ->
-       emit_child_edges parent children pi1 = emit_child_edges parent children pi2).
+       emit_child_edges_unsorted parent children pi1 = emit_child_edges_unsorted parent children pi2).
 Proof.
-  intros H. destruct child_edges_refuted_witness as (P1 & P2 & N).
+  intros H. destruct child_edges_unsorted_witness as (P1 & P2 & N & _).
   exact (N (H (s "base") [s "c1"; s "c2"] [0; 1] [1; 0] P1 P2)).
 Qed.
 
